@@ -358,9 +358,14 @@ def check_hdf5_codec(ctx, produced):
     for node in cfg.nodes:
         if node.kind == 'if' and node.id in rd_.live:
             t = node.ast.test
+            # a test of the value read from the 'directly_assigned'
+            # dataset (recognised by the dataset key it derives from)
             if isinstance(t, ast.Subscript) and isinstance(
-                    t.value, ast.Name) and 'directly' in t.value.id:
-                guards.append(node)
+                    t.value, ast.Name):
+                from ..core.slicing import backward_slice
+                if 'directly_assigned' in backward_slice(
+                        rdr, t, node.id).consts:
+                    guards.append(node)
     ok = False
     for g in guards:
         for (t_, lab) in cfg.succ[g.id]:
